@@ -132,6 +132,11 @@ def merge(results):
         for x in r['notes']:
             if x not in agg['notes']:
                 agg['notes'].append(x)
+        for rel, d in (r.get('anchor_coverage') or {}).items():
+            if isinstance(d, dict) and 'hit' in d:
+                c = agg.setdefault('anchor_coverage', {}).setdefault(
+                    rel, {'hit': set(), 'executable': d['executable']})
+                c['hit'].update(d['hit'])
     return agg
 
 
@@ -226,6 +231,11 @@ def main(argv=None):
         'known_finding_witnesses': winfo,
         'shards': nshards,
         'shard_budget_s': budget,
+        'anchor_line_coverage': {
+            rel: '%d of %d executable function lines reached (shard 0 only; '
+                 'reach information, never part of the verdict)'
+                 % (len(d['hit']), d['executable'])
+            for rel, d in agg.get('anchor_coverage', {}).items()},
         'inconclusive_reasons': inconclusive,
         'notes': agg['notes'],
         'verdict': ('violated' if agg['violations'] else
